@@ -4,7 +4,10 @@
 //   * per-unit execution counter == 1 (<= 1, and group status `canceled`, when the group was cancelled);
 //   * "wait returned => every unit submitted to the group (transitively) has finished" — ghost flags read right
 //     after the wait returns;
-//   * no deadlock (every live thread parked) and no step-limit overrun.
+//   * no deadlock (every live thread parked) and no step-limit overrun;
+//   * task memory (r1::allocate / r1::deallocate are interposed with -Wl,--wrap, the real pool still does the work):
+//     no small object is freed twice, and whenever a thread allocates or frees a small object no cell in [head, tail) of
+//     its own task pool points to freed task memory (a stale cell would be handed the next task the thread creates).
 // usage: e2e <program> <P = max_allowed_parallelism / arena size> <size> <rand seed nruns | replayf file>
 #include "oneapi/tbb/global_control.h"
 #include "oneapi/tbb/task_arena.h"
@@ -13,7 +16,11 @@
 #include "oneapi/tbb/partitioner.h"
 #include "oneapi/tbb/blocked_range.h"
 #include "tbb/governor.h"
+#include "tbb/thread_data.h"
+#include "tbb/arena_slot.h"
 #include <cstdio>
+#include <set>
+#include <thread>
 #include <fstream>
 #include <sstream>
 #include <string>
@@ -40,6 +47,54 @@ struct Mon {
     }
 };
 static Mon* M;
+
+// ---- task memory monitor ------------------------------------------------------------------------------------
+static std::set<const void*> g_freed;     // small objects given back to a pool and not handed out again (one controlled thread runs at a time)
+static bool g_mem_on = false;
+static void scan_own_pool(const char* when) {
+    using namespace tbb::detail;
+    r1::thread_data* td = r1::governor::get_thread_data_if_initialized();
+    if (!td || !td->my_arena_slot || !M) return;
+    r1::arena_slot* sl = td->my_arena_slot;
+    if (!sl->task_pool_ptr) return;
+    std::intptr_t H = (std::intptr_t)sl->head.a.load(std::memory_order_relaxed), T = (std::intptr_t)sl->tail.a.load(std::memory_order_relaxed);
+    if (T > (std::intptr_t)sl->my_task_pool_size) return;
+    for (std::intptr_t i = H < 0 ? 0 : H; i < T; ++i) {
+        const void* c = sl->task_pool_ptr[i];
+        if (c && g_freed.count(c))
+            M->fail(std::string("VIOLATION a cell in [head,tail) of a thread's task pool points to freed task memory (cell ") + std::to_string((long)(i - H)) +
+                    " above head, " + std::to_string((long)(T - H)) + " cells, seen at " + when + ")");
+    }
+}
+extern "C" {
+void* __real__ZN3tbb6detail2r18allocateERPNS0_2d117small_object_poolEmRKNS2_14execution_dataE(tbb::detail::d1::small_object_pool*&, std::size_t, const tbb::detail::d1::execution_data&);
+void* __wrap__ZN3tbb6detail2r18allocateERPNS0_2d117small_object_poolEmRKNS2_14execution_dataE(tbb::detail::d1::small_object_pool*& a, std::size_t n, const tbb::detail::d1::execution_data& ed) {
+    void* p = __real__ZN3tbb6detail2r18allocateERPNS0_2d117small_object_poolEmRKNS2_14execution_dataE(a, n, ed);
+    if (g_mem_on) { g_freed.erase(p); scan_own_pool("allocate"); }
+    return p;
+}
+void* __real__ZN3tbb6detail2r18allocateERPNS0_2d117small_object_poolEm(tbb::detail::d1::small_object_pool*&, std::size_t);
+void* __wrap__ZN3tbb6detail2r18allocateERPNS0_2d117small_object_poolEm(tbb::detail::d1::small_object_pool*& a, std::size_t n) {
+    void* p = __real__ZN3tbb6detail2r18allocateERPNS0_2d117small_object_poolEm(a, n);
+    if (g_mem_on) { g_freed.erase(p); scan_own_pool("allocate"); }
+    return p;
+}
+static bool note_free(void* ptr) {      // false: do not forward (second free of the same object)
+    if (!g_mem_on) return true;
+    if (g_freed.count(ptr)) { if (M) M->fail("VIOLATION a task object (small object) was freed twice"); return false; }
+    scan_own_pool("deallocate");
+    g_freed.insert(ptr);
+    return true;
+}
+void __real__ZN3tbb6detail2r110deallocateERNS0_2d117small_object_poolEPvmRKNS2_14execution_dataE(tbb::detail::d1::small_object_pool&, void*, std::size_t, const tbb::detail::d1::execution_data&);
+void __wrap__ZN3tbb6detail2r110deallocateERNS0_2d117small_object_poolEPvmRKNS2_14execution_dataE(tbb::detail::d1::small_object_pool& p, void* ptr, std::size_t n, const tbb::detail::d1::execution_data& ed) {
+    if (note_free(ptr)) __real__ZN3tbb6detail2r110deallocateERNS0_2d117small_object_poolEPvmRKNS2_14execution_dataE(p, ptr, n, ed);
+}
+void __real__ZN3tbb6detail2r110deallocateERNS0_2d117small_object_poolEPvm(tbb::detail::d1::small_object_pool&, void*, std::size_t);
+void __wrap__ZN3tbb6detail2r110deallocateERNS0_2d117small_object_poolEPvm(tbb::detail::d1::small_object_pool& p, void* ptr, std::size_t n) {
+    if (note_free(ptr)) __real__ZN3tbb6detail2r110deallocateERNS0_2d117small_object_poolEPvm(p, ptr, n);
+}
+}
 
 struct Unit {      // body of one task_group unit
     int id;
@@ -126,6 +181,56 @@ static void prog_isolate() {
     M->covered(lo, M->next, "task_group::wait");
 }
 
+// Mailed chunks under isolation: a parallel_for with static_partitioner / affinity_partitioner (chunks mailed to other
+// slots: proxy in the spawner's task pool AND in the recipient's mailbox) runs inside this_task_arena::isolate; the chunk
+// bodies spawn tasks of a FOREIGN isolation (nested isolate + task_group::run, not waited for there) on top of the
+// proxies in the calling thread's pool, and the calling thread's first chunk waits until another thread has started a
+// chunk, so that the owner's isolated wait walks down past skipped foreign tasks to proxies that may already be empty.
+// Afterwards more tasks are created (they get recycled task memory) and the foreign group is waited for.
+static std::atomic<int> g_started_elsewhere{0};
+template <class Part>
+static void iso_mail_pass(Part& part, tbb::task_group& foreign, std::vector<int>& foreign_ids, int n, int nforeign, std::thread::id main_id) {
+    int lo = M->next;
+    for (int i = 0; i < n; ++i) M->fresh();
+    g_started_elsewhere.store(0);
+    std::atomic<int> first{0};
+    tbb::parallel_for(tbb::blocked_range<int>(0, n, 1), [&, lo](const tbb::blocked_range<int>& r) {
+        bool on_main = std::this_thread::get_id() == main_id;
+        if (!on_main) g_started_elsewhere.fetch_add(1);
+        for (int i = r.begin(); i != r.end(); ++i) { M->begin(lo + i); M->end(lo + i); }
+        if (on_main && first.fetch_add(1) < 2) {
+            for (int k = 0; k < nforeign; ++k) {
+                int z = M->fresh(); foreign_ids.push_back(z);
+                tbb::this_task_arena::isolate([&] { foreign.run(Unit{z}); });      // another isolation, on top of the pool, no wait
+            }
+            if (g_P > 1) for (int spins = 0; g_started_elsewhere.load() == 0 && spins < 2000; ++spins) _mm_pause();
+        }
+    }, part);
+    M->covered(lo, lo + n, "isolated parallel_for with mailed chunks");
+}
+template <class Part>
+static void prog_iso_mail(bool two_pass_first) {
+    std::thread::id main_id = std::this_thread::get_id();
+    tbb::task_group foreign, own;
+    std::vector<int> foreign_ids;
+    int own_lo = 0, own_hi = 0;
+    tbb::this_task_arena::isolate([&] {
+        Part part;
+        int n = 2 * g_P + (g_size % 3);
+        if (two_pass_first) iso_mail_pass(part, foreign, foreign_ids, n, 0, main_id);      // records the affinities
+        iso_mail_pass(part, foreign, foreign_ids, n, 1 + g_size % 2, main_id);
+        // more work created by the same thread afterwards: recycled task memory
+        own_lo = M->next;
+        for (int i = 0; i < 2 + g_size; ++i) own.run(Unit{M->fresh()});
+        own_hi = M->next;
+        own.wait();
+        M->covered(own_lo, own_hi, "task_group::wait (isolated)");
+        iso_mail_pass(part, foreign, foreign_ids, n, g_size % 2, main_id);
+    });
+    foreign.wait();
+    for (int z : foreign_ids) M->covered(z, z + 1, "task_group::wait (tasks of a foreign isolation)");
+}
+
 static void prog_enqueue() {
     // task_arena::enqueue (fifo stream) vs spawn: units of one group submitted both ways; arena.execute waits
     tbb::task_arena a(g_P);
@@ -175,7 +280,8 @@ static std::atomic<int> g_ext_done{0};
 
 static bool run_once(verif::Schedule& sch, int run_idx, bool print_ok) {
     Mon mon; M = &mon;
-    g_ext_done.store(0);
+    g_freed.clear(); g_mem_on = true;
+    g_ext_done.a.store(0);
     int nextra = (g_prog == "oversub") ? 2 : 0;
     std::vector<std::function<void()>> bodies;
     bodies.push_back([&] {
@@ -185,6 +291,8 @@ static bool run_once(verif::Schedule& sch, int run_idx, bool print_ok) {
         else if (g_prog == "tg_tree") prog_tg_tree();
         else if (g_prog == "pfor_affinity") prog_pfor_affinity();
         else if (g_prog == "isolate") prog_isolate();
+        else if (g_prog == "iso_static") prog_iso_mail<tbb::static_partitioner>(false);
+        else if (g_prog == "iso_affinity") prog_iso_mail<tbb::affinity_partitioner>(true);
         else if (g_prog == "enqueue") prog_enqueue();
         else if (g_prog == "cancel") prog_cancel();
         else if (g_prog == "oversub") external_body(0);
@@ -197,6 +305,7 @@ static bool run_once(verif::Schedule& sch, int run_idx, bool print_ok) {
         g_ext_done.fetch_add(1);
     });
     verif::Result r = verif::run(bodies, sch, 4000000);
+    g_mem_on = false;
     std::string err = mon.err;
     if (r.deadlock && err.empty()) err = "DEADLOCK (every live thread parked, or step limit)";
     if (!r.deadlock) for (int i = 0; i < mon.next; ++i) if (mon.exec[i] > 1 && err.empty()) err = "VIOLATION unit " + std::to_string(i) + " executed " + std::to_string(mon.exec[i]) + " times";
@@ -215,6 +324,7 @@ static bool run_once(verif::Schedule& sch, int run_idx, bool print_ok) {
 
 int main(int argc, char** argv) {
     verif::init_determinism(argc, argv);
+    verif::report_crashes();       // a fault inside a controlled run prints `CRASH signal=<n> tid=<t>` + the schedule so far, exit code 4
     if (argc < 6) return 2;
     g_prog = argv[1]; g_P = atoi(argv[2]); g_size = atoi(argv[3]);
     std::string mode = argv[4];
@@ -223,6 +333,10 @@ int main(int argc, char** argv) {
         unsigned long long seed = strtoull(argv[5], 0, 10);
         long n = argc > 6 ? atol(argv[6]) : 1;
         for (long i = 0; i < n; ++i) { verif::RandomSchedule s(seed * 7919 + i, 16 + (int)(i % 5) * 48); if (!run_once(s, (int)i, true)) bad++; runs++; }
+    } else if (mode == "randat") {       // exactly the i-th schedule of `rand <seed> ...` (re-run of a run that crashed)
+        unsigned long long seed = strtoull(argv[5], 0, 10);
+        long i = argc > 6 ? atol(argv[6]) : 0;
+        verif::RandomSchedule s(seed * 7919 + i, 16 + (int)(i % 5) * 48); if (!run_once(s, (int)i, true)) bad++; runs++;
     } else if (mode == "replayf") {
         verif::ReplaySchedule s; std::ifstream f(argv[5]); int t; while (f >> t) s.tids.push_back(t);
         if (!run_once(s, 0, true)) bad++; runs++;
